@@ -21,7 +21,7 @@ type C01Case struct {
 }
 
 func genC01(t *rapid.T, tier string) C01Case {
-	c := C01Case{Cfg: core.GenConfig(t, tier, core.GenOpts{})}
+	c := C01Case{Cfg: core.GenConfig(t, tier, core.GenOpts{BigOneIn: 10})}
 	if rapid.IntRange(0, 11).Draw(t, "inmem") == 0 {
 		c.InMem = true
 		c.Cfg.BF = 16
@@ -33,8 +33,8 @@ func genC01(t *rapid.T, tier string) C01Case {
 	if tier == "thorough" {
 		maxOps = 160
 	}
-	c.Fill = core.GenFill(t, len(c.Cfg.Pool()), 40)
-	c.Prog = core.GenProgram(t, core.DefaultWeights, maxOps, 2)
+	c.Fill = core.GenFillCfg(t, c.Cfg, 40)
+	c.Prog = core.GenProgram(t, core.WithBulk(core.DefaultWeights, c.Cfg), maxOps, 2)
 	return c
 }
 
